@@ -107,6 +107,10 @@ class PresGen:
             c = self.mk("named", fields=[Field("ignored", prim("bool"))])
             c.extra_attrs.append(f"#[ts(as = {tsgen.rs_str(ft.rs())})]")
             members["container-as"] = c
+            if flat_ok and shape == "named":
+                # flattening a type that is bound `as` F is flattening F
+                q = self.mk("named", fields=[Field("own", prim("i32")), Field("f", Ty("user", item=c), flatten=True)])
+                members["flat-of-container-as"] = q
             # nesting: the inlining parent flattened into another struct, the flattening parent inlined
             if "inline" in members and shape == "named":
                 q = self.mk("named", fields=[Field("outer", prim("bool")), Field("g", Ty("user", item=members["inline"]), flatten=True)])
